@@ -35,6 +35,7 @@ type memBackend struct {
 	putCalls int
 	putErr   codes.Code // next Puts fail with this code after consuming the buffer (0 = none)
 	putEarly bool       // ... before consuming it (buffer discarded)
+	putSkip  bool       // Put discards the buffer and returns nil at once (object already present)
 	getErr   codes.Code
 	fmErr    codes.Code
 	fmAsked  [][]string // every FindMissing argument, as keys
@@ -124,8 +125,12 @@ func (b *memBackend) GetFromComposite(ctx context.Context, parent, child digest.
 func (b *memBackend) Put(ctx context.Context, d digest.Digest, buf buffer.Buffer) error {
 	b.mu.Lock()
 	b.putCalls++
-	pe, early := b.putErr, b.putEarly
+	pe, early, skip := b.putErr, b.putEarly, b.putSkip
 	b.mu.Unlock()
+	if skip {
+		buf.Discard()
+		return nil
+	}
 	if pe != 0 && early {
 		buf.Discard()
 		return status.Error(pe, "injected put failure")
